@@ -146,7 +146,7 @@ theorem so3_code_inbounds_laws_partial (a b : St ℝ) (ha : satisfiesBounds (.so
   · exact Or.inr ⟨_, h1, h2, h3⟩
 example : satisfiesBounds (.so3 : Space ℝ) (.so3 0 0 0 wq) = true := wq_inBounds
 
-/-- F27: the quaternion `(0,0,0,1-7.5·10⁻¹⁰)` satisfies the code's bounds (norm within 1e-9 of 1) but its squared
+/-- F76: the quaternion `(0,0,0,1-7.5·10⁻¹⁰)` satisfies the code's bounds (norm within 1e-9 of 1) but its squared
 norm `1-1.5·10⁻⁹` is below the clamp threshold `1-10⁻⁹`: its distance to ITSELF is `acos(n²) ≈ 5.5e-5 ≥ ε`, and it is
 not `equalStates` to itself. -/
 theorem so3_code_inbounds_self_fails :
